@@ -1,10 +1,114 @@
 """C15 — retry schedule (gating, bookkeeping and heap index arithmetic; the numerical
 exactness of squareroot and the heap order as a property of values are not decided)."""
 from qv.core import AnalysisBroken
-from qv.esp import Engine, Env, TOP, fs
+from qv.esp import Engine, Env, Outcome, TOP, fs
 from qv.lib import QHooks
 from rules import qsend
 from rules.qsend import attach
+
+
+class HeapHooks(QHooks):
+    def __init__(self, ln):
+        self.ln = ln
+        self.out = []
+        self.oob = None
+
+    def tracked_global(self, path):
+        return True
+
+    def precise_arith(self, path):
+        return True
+
+    def prim_prioq_readyplus(self, E, x, args):
+        return [Outcome(ret=fs(1))]
+
+    def materialize(self, E, path):
+        import re
+        m = re.match(r'^HEAP\[(-?\d+)\]', path)
+        if m and self.oob is None:
+            k = int(m.group(1))
+            ln = E.get('PQ.len')
+            ln = next(iter(ln)) if ln is not TOP and len(ln) == 1 else None
+            # a whole-record read of a live cell is a copy; an unknown field, or any cell at/after len, is a stray read
+            if not (path == 'HEAP[%d]' % k and isinstance(ln, int) and 0 <= k < max(ln, 1)):
+                self.oob = (k, E.trace.list())
+        return TOP
+
+    def on_return(self, E, fn, val):
+        if fn.name == self.entry:
+            self.out.append((dict(E.store), val))
+
+
+def heap_sites(db, rep, prog, maxn):
+    import itertools
+    ins, mn, dm = db.fn('prioq.c', 'prioq_insert'), db.fn('prioq.c', 'prioq_min'), db.fn('prioq.c', 'prioq_delmin')
+    bad = None
+    nvec = 0
+    states = 0
+
+    def run(fn, store, extra):
+        nonlocal states
+        H = HeapHooks(None)
+        H.entry = fn.name
+        e = Engine(db, prog, H)
+        fid = e.frame_id(fn)
+        st = dict(store)
+        st['%s::%s' % (fid, fn.params[0])] = fs(('&', 'PQ'))
+        if len(fn.params) > 1:
+            st['%s::%s' % (fid, fn.params[1])] = fs(('&', 'PE'))
+        st.update(extra)
+        e.run(fn, st)
+        states += e.states
+        return H
+
+    def g(store, k):
+        v = store.get(k)
+        return next(iter(v)) if v is not None and v is not TOP and len(v) == 1 else None
+    for n in range(1, maxn + 1):
+        for keys in itertools.product(range(n), repeat=n):
+            if bad:
+                break
+            nvec += 1
+            store = {'PQ.p': fs(('&', 'HEAP[0]')), 'PQ.len': fs(0)}
+            live = []
+            for idv, dt in enumerate(keys):
+                H = run(ins, store, {'PE.dt': fs(dt * 10), 'PE.id': fs(idv)})
+                if len(H.out) != 1 or H.oob:
+                    bad = ('inserting %s: %s' % (list(keys), 'cell %s beyond the queue is read' % H.oob[0] if H.oob else '%d outcomes' % len(H.out)), H.oob[1] if H.oob else [])
+                    break
+                store = {k: v for k, v in H.out[0][0].items() if k.startswith('PQ') or k.startswith('HEAP')}
+                live.append((dt * 10, idv))
+            while live and not bad:
+                H = run(mn, store, {})
+                if len(H.out) != 1 or H.oob:
+                    bad = ('prioq_min on a queue of %d: %s' % (len(live), 'reads cell %s' % H.oob[0] if H.oob else '%d outcomes' % len(H.out)), [])
+                    break
+                st_, ret = H.out[0]
+                got = (g(st_, 'PE.dt'), g(st_, 'PE.id'))
+                if not (ret is not TOP and ret == fs(1)) or got not in live or got[0] != min(d for d, _ in live):
+                    bad = ('after inserting the times %s (x10) and %d removals prioq_min answers %s; the earliest pending entry is due at %d: a later-due message is served first and the earlier one waits' %
+                           (list(keys), n - len(live), got, min(d for d, _ in live)), [])
+                    break
+                H = run(dm, store, {})
+                if len(H.out) != 1 or (H.oob and H.oob[0] >= len(live)):
+                    bad = ('prioq_delmin on a queue of %d entries touches cell %s' % (len(live), H.oob[0] if H.oob else '?'), H.oob[1] if H.oob else [])
+                    break
+                store = {k: v for k, v in H.out[0][0].items() if k.startswith('PQ') or k.startswith('HEAP')}
+                live.remove(got)
+                ln = g(store, 'PQ.len')
+                cells = sorted((g(store, 'HEAP[%d].dt' % k), g(store, 'HEAP[%d].id' % k)) for k in range(ln)) if isinstance(ln, int) and 0 <= ln <= n else None
+                if ln != len(live) or cells != sorted(live):
+                    bad = ('after inserting the times %s (x10), removing the minimum leaves %s (len %s); expected the entries %s: an entry was lost or duplicated' % (list(keys), cells, ln, sorted(live)), [])
+                    break
+            # an empty queue answers 0
+        if bad:
+            break
+    H = run(mn, {'PQ.p': fs(('&', 'HEAP[0]')), 'PQ.len': fs(0)}, {})
+    if not bad and not (len(H.out) == 1 and H.out[0][1] == fs(0)):
+        bad = ('prioq_min on an empty queue does not answer 0', [])
+    rep.count_states(states, states)
+    return {'min/delmin-serve-entries-in-time-order': (bad is None, 'prioq.c', bad[0] if bad else '%d key vectors' % nvec, bad[1] if bad else [])}
+
 
 
 def run(ctx):
@@ -14,13 +118,8 @@ def run(ctx):
     r1 = rep.rule('C15.1-gating', 'R-GUARD', 'pass_dochan takes an entry only when it is due, from the queue it inspected; the retry time of a job is nextretry(birth,c) and job_close re-inserts with it')
     ps = qsend.analyse_pass_dochan(db, rep)
     attach(r1, ps, only={'pass:entry-taken-only-when-due', 'pass:delmin-on-the-queue-just-inspected'})
-    pd = prog.fn('pass_dochan', 'qmail-send.c')
-    ra = [x for x in pd.all_x() if x.k == 'asg' and (x.args[0].path() or '').endswith('.retry')]
-    r1.check(len(ra) == 1 and ra[0].args[1].strip().k == 'call' and ra[0].args[1].strip().callee == 'nextretry' and
-             (ra[0].args[1].strip().args[0].var or '').startswith('L:birth') and ra[0].args[1].strip().args[1].path() == 'P:c',
-             'job-retry-time=nextretry(birth,c)', pd.unit + ':pass_dochan', 'jo[..].retry must be nextretry(birth, c)')
-    gi = pd.calls('getinfo')
-    r1.check(bool(gi) and bool(ra) and pd.dominates(gi[0], ra[0]) and 'birth' in gi[0].args[1].src(), 'birth-comes-from-the-info-file', pd.unit + ':pass_dochan', 'birth must be filled by getinfo() before nextretry')
+    pst = qsend.analyse_pass_start(db, rep)
+    attach(r1, pst, only={'pass:job-retry-time=nextretry(birth-from-the-info-file,channel)', 'pass:job-opened-for-the-entry-taken'})
     attach(r1, qsend.analyse_job_reinsert(db, rep), prefixes=['jc:'])
     r1.expect_min(5)
 
@@ -74,26 +173,7 @@ def run(ctx):
     r2.expect_min(3)
 
     r3 = rep.rule('C15.3-expiry', 'R-GUARD', 'flagdying = recent > birth + lifetime (evaluated at the boundary); a dying Z report becomes D with its bounce (C03 rule 1)')
-    fd = [x for x in pd.all_x() if x.k == 'asg' and (x.args[0].path() or '').endswith('.flagdying')]
-    okd = False
-    if len(fd) == 1:
-        E = Env(eng, pd, {}, {}, None)
-        cond = fd[0].args[1]
-
-        def ev(age, life):
-            env = {}
-            for y in cond.walk():
-                if y.k == 'cast' and y.op == 'LValueToRValue':
-                    p = eng.canon(E, y.args[0])
-                    if p == 'G:recent':
-                        env[p] = 1000000 + age
-                    elif p and 'birth' in p:
-                        env[p] = 1000000
-                    elif p == 'G:lifetime':
-                        env[p] = life
-            return eng.concrete(E, cond, env)
-        okd = ev(604800, 604800) == 0 and ev(604801, 604800) == 1 and ev(5, 604800) == 0
-    r3.check(okd, 'flagdying-iff-age>lifetime', pd.unit + ':pass_dochan', 'flagdying must be recent > birth + lifetime')
+    attach(r3, pst, only={'pass:flagdying-iff-age>lifetime'})
     dd = qsend.analyse_del_dochan(db, rep)
     attach(r3, dd, only={'del:DONE-only-for-K-or-D-(Z-when-expired)', 'del:bounce-only-for-D-(Z-when-expired)', 'del:K/D-reports-are-marked'})
     r3.expect_min(4)
@@ -107,14 +187,44 @@ def run(ctx):
     pr = mainf.calls('pqrun')
     r4.check(bool(pr) and any(c.path() == 'G:flagrunasap' and t is True for c, t in mainf.guards(pr[0], fresh=False) or []), 'loop-calls-pqrun-when-flagged', mainf.unit + ':main', '')
     prf = prog.fn('pqrun', 'qmail-send.c')
-    asg = [x for x in prf.all_x() if x.k == 'asg' and x.op == '=' and x.args[0].src().endswith('.dt') and x.args[1].path() == 'G:recent']
-    okr = False
-    if asg:
-        g = prf.guards(asg[0]) or []
-        over_c = any(c.strip().k == 'bin' and c.strip().op == '<' and c.strip().args[1].const == 2 for c, t in g)
-        over_i = any(c.strip().k == 'bin' and c.strip().op == '<' and c.strip().args[1].src().endswith('.len') for c, t in g)
-        okr = over_c and over_i and 'pqchan[c].p[i]' in asg[0].args[0].src()
-    r4.check(okr, 'pqrun-sets-every-channel-entry-to-recent', prf.unit + ':pqrun', 'pqchan[c].p[i].dt = recent for every c < CHANNELS and i < len')
+
+    class PR(QHooks):
+        def __init__(self):
+            self.ends = []
+
+        def tracked_global(self, path):
+            return True
+
+        def precise_arith(self, path):
+            return True
+
+        def on_return(self, E, fn, val):
+            if fn.name == 'pqrun':
+                self.ends.append(dict(E.store))
+    badp = None
+    for lens in ((3, 2), (0, 1), (2, 0)):
+        PH = PR()
+        e_ = Engine(db, prog, PH)
+        st = {'G:recent': fs(7000)}
+        for c_ in (0, 1):
+            st['G:pqchan[%d].p' % c_] = fs(('&', 'Q%d[0]' % c_)) if lens[c_] else fs(0)
+            st['G:pqchan[%d].len' % c_] = fs(lens[c_])
+            for i_ in range(lens[c_] + 1):
+                st['Q%d[%d].dt' % (c_, i_)] = fs(100 + i_)
+                st['Q%d[%d].id' % (c_, i_)] = fs(10 * c_ + i_)
+        e_.run(prf, st)
+        rep.count_states(e_.states, e_.transitions)
+        if len(PH.ends) != 1:
+            raise AnalysisBroken('pqrun: %d ends explored' % len(PH.ends))
+        end = PH.ends[0]
+        for c_ in (0, 1):
+            for i_ in range(lens[c_] + 1):
+                dt = end.get('Q%d[%d].dt' % (c_, i_))
+                idv = end.get('Q%d[%d].id' % (c_, i_))
+                want = 7000 if i_ < lens[c_] else 100 + i_
+                if dt != fs(want) or idv != fs(10 * c_ + i_):
+                    badp = badp or 'queue lengths %s: entry %d of channel %d ends with time %s id %s (documented: every queued entry becomes due now = 7000, nothing else changes)' % (lens, i_, c_, sorted(dt) if dt not in (None, TOP) else dt, sorted(idv) if idv not in (None, TOP) else idv)
+    r4.check(badp is None, 'pqrun-sets-every-channel-entry-to-recent', prf.unit + ':pqrun', badp or '')
     pf = prog.fn('pqfinish', 'qmail-send.c')
     ut = pf.calls('utimes')
     okf = False
@@ -133,71 +243,10 @@ def run(ctx):
     r4.check(okp, 'pqadd-reads-the-time-back-from-the-channel-file-mtime', pa.unit + ':pqadd', 'pechan[c].dt = st.st_mtime after stat of the channel file')
     r4.expect_min(7)
 
-    r5 = rep.rule('C15.5-heap-index-arithmetic', 'R-GUARD', 'prioq.c: parent of j is (j-1)/2; delmin stops without comparing only when node i has no live child (evaluated for i < 8, n < 18) and never indexes beyond the last element')
-    pq = db.fn('prioq.c', 'prioq_delmin')
-    E = Env(eng, pq, {}, {}, None)
-    # the child index: a local assigned from arithmetic over one other local and compared with a third in an if
-    jx = brk = None
-    for x in pq.all_x():
-        if not (x.k == 'asg' and x.op == '=' and x.args[0].var and x.args[0].var[:2] == 'L:'):
-            continue
-        refs = {r for r in x.args[1].refs() if r[:2] == 'L:'}
-        if len(refs) != 1 or x.args[1].strip().k != 'bin' or x.args[0].var in refs:
-            continue
-        for bid in pq.order():
-            b = pq.blocks[bid]
-            if b.cond is not None and b.term.get('k') == 'if':
-                cr = {r for r in b.cond.refs() if r[:2] == 'L:'}
-                if x.args[0].var in cr and len(cr) == 2 and not (cr & refs) and pq.dominates(x, b.cond) and b.cond.strip().k == 'bin':
-                    jx, brk = x, b
-                    break
-        if jx is not None:
-            break
-    if jx is None:
-        raise AnalysisBroken('prioq_delmin: child index computation / loop exit test not found')
-    # which successor leaves the loop?  the one from which jx's block is not reachable
-    jb = pq.pos[jx.id][0]
-    leave_true = not pq.can_reach_from(brk.succs[0], jb) if hasattr(pq, 'can_reach_from') else None
-
-    def reach_from(start, target):
-        seen, work = set(), [start]
-        while work:
-            b = work.pop()
-            if b in seen or b is None:
-                continue
-            seen.add(b)
-            if b == target:
-                return True
-            work.extend(pq.blocks[b].succs)
-        return False
-    leave_true = not reach_from(brk.succs[0], jb)
-    ipath = [eng.qualify(pq, r) for r in jx.args[1].refs() if r[:2] == 'L:'][0]
-    jpath = eng.qualify(pq, jx.args[0].var)
-    npath = [eng.qualify(pq, r) for r in brk.cond.refs() if r[:2] == 'L:' and r != jx.args[0].var][0]
-    bad = None
-    oob = None
-    for i in range(0, 8):
-        j = eng.concrete(E, jx.args[1], {ipath: i})
-        for n in range(0, 18):          # n = index of the last element (len - 1)
-            c = eng.concrete(E, brk.cond, {jpath: j, npath: n})
-            leaves = bool(c) == leave_true
-            live_child = 2 * i + 1 < n          # children are live if their index is below the element being moved
-            if leaves and live_child and bad is None:
-                bad = (i, n, j)
-            if not leaves and j > n and oob is None:
-                oob = (i, n, j)
-    r5.check(j is not None and bad is None, 'delmin-compares-whenever-a-live-child-exists', brk.cond.where,
-             'at node i=%s with last index n=%s (child index j=%s) the sift-down stops although child %s is live: an earlier-due entry can stay below a later one' % (bad + (2 * bad[0] + 1,) if bad else (None, None, None, None)))
-    r5.check(oob is None, 'delmin-never-reads-beyond-the-last-element', brk.cond.where, 'i=%s n=%s: continues with j=%s > n' % (oob if oob else (None, None, None)))
-    pi = db.fn('prioq.c', 'prioq_insert')
-    Ei = Env(eng, pi, {}, {}, None)
-    iasg = [x for x in pi.all_x() if x.k == 'asg' and x.op == '=' and x.args[0].var and x.args[0].var[:2] == 'L:' and
-            len({r for r in x.args[1].refs() if r[:2] == 'L:'}) == 1 and any(y.k == 'bin' and y.op in ('/', '>>') for y in x.args[1].walk())]
-    okp = bool(iasg)
-    if iasg:
-        jp = [eng.qualify(pi, r) for r in iasg[0].args[1].refs() if r[:2] == 'L:'][0]
-        okp = all(eng.concrete(Ei, iasg[0].args[1], {jp: j}) == (j - 1) // 2 for j in range(1, 40))
-    r5.check(okp, 'insert-parent-index=(j-1)/2', pi.unit + ':prioq_insert', 'parent index computation')
-    r5.expect_min(3)
-    rep.assume('NOT decided: exactness of squareroot for all ages, birth + n*n > recent as arithmetic, and the heap order as a property of values (only the index arithmetic of the sift loops is)',
-               'a flipped dt comparison in prioq.c is covered by the repository\'s unit tests, not by this check')
+    r5 = rep.rule('C15.5-heap-operations', 'R-TABLE', 'prioq.c over every key vector {0..n-1}^n, n <= %d: after inserting the entries, prioq_min names an entry with the smallest time and prioq_delmin removes exactly that entry, until the queue is empty; no operation touches a cell at or beyond len' % ctx.deep(4, 5))
+    for inst, v in sorted(heap_sites(db, rep, prog, ctx.deep(4, 5)).items()):
+        r5.check(v[0], inst, v[1], v[2], v[3])
+    r5.expect_min(1)
+    rep.exhaustive_rules.append('C15.5-heap-operations')
+    rep.assume('NOT decided: exactness of squareroot for all ages and birth + n*n > recent as arithmetic',
+               'heap order is decided for queues of up to %d entries (all key vectors), not for larger ones' % ctx.deep(4, 5))
